@@ -1431,6 +1431,9 @@ func (vx *Vaxis) openTty(tgts []*os.File) error {
 
 	vx.tw = newWriter(vx)
 	vx.parser = ansi.NewParser(vx.console)
+	// The goroutine keeps reading from this parser until it ends. A Resume
+	// installs a new parser in vx.parser, which belongs to the next goroutine
+	parser := vx.parser
 
 	go func() {
 		defer func() {
@@ -1439,7 +1442,7 @@ func (vx *Vaxis) openTty(tgts []*os.File) error {
 				// can't stop while it has sequences nobody reads: we
 				// were the reader
 				go func() {
-					for range vx.parser.Next() {
+					for range parser.Next() {
 					}
 				}()
 				vx.Close()
@@ -1448,13 +1451,13 @@ func (vx *Vaxis) openTty(tgts []*os.File) error {
 		}()
 		for {
 			select {
-			case seq := <-vx.parser.Next():
+			case seq := <-parser.Next():
 				switch seq := seq.(type) {
 				case ansi.EOF:
 					return
 				default:
 					vx.handleSequence(seq)
-					vx.parser.Finish(seq)
+					parser.Finish(seq)
 				}
 			case <-vx.chSigWinSz:
 				atomicStore(&vx.resize, true)
@@ -1464,7 +1467,7 @@ func (vx *Vaxis) openTty(tgts []*os.File) error {
 				// can't stop while it has sequences nobody reads: we
 				// are the reader
 				go func() {
-					for range vx.parser.Next() {
+					for range parser.Next() {
 					}
 				}()
 				vx.Close()
